@@ -719,6 +719,11 @@ func (w *World) onEmit(event string, objs ...any) {
 		if a := w.ctl.ActorOfGoroutine(); a != "" {
 			kv["c"] = strings.TrimPrefix(a, "c:")
 		}
+	case "not_found":
+		kv["svc"] = objs[0]
+		if a := w.ctl.ActorOfGoroutine(); a != "" {
+			kv["c"] = strings.TrimPrefix(a, "c:")
+		}
 	case "rollout_split", "rollout_split_refused":
 		sv := objs[0].(*server.Service)
 		kv["svc"] = server.VerifServiceName(sv)
